@@ -46,6 +46,7 @@ inductive Body
   | table (rows : List (Int × Dec)) (dflt : Dec)   -- route on the first (integer) argument
   | fail (t : String)                      -- raises user exception `t`
   | failIf (k : Int) (t : String)          -- raises `t` when the first argument = k, else like `tag t`
+  | failGe (k : Int) (t : String)          -- raises `t ++ <first argument>` (a DIFFERENT error per value) when the first argument ≥ k
   | nonBool                                -- if/else function returning a non-bool (TypeError path)
   | wrongArity (t : String) (k : Nat)      -- returns a k-tuple regardless of the declared outputs
   | handler (k : Option Int)               -- interrupt handler: `none` always pauses; `some k`: responds (sum + k)
